@@ -250,9 +250,34 @@ SLCombRef(c) == [err |-> "none", dt |-> c.arrs[1].dt, rows |-> SLCombRows(c.arrs
                  listlen |-> IF c.keep THEN Len(c.arrs) ELSE 0, frame |-> TRUE]
 
 \* ---------------------------------------------------------------------------------
+\* Implementation-shaped model of combine_arrlist's consuming loop (keep=False):
+\*     while len(arrlist) > 0: data = arrlist.pop(0); output[beg:beg+num] = data; ...
+\* one SLMStep per iteration.  The assignment raises when the row types cannot be cast
+\* (here: a different number of fields; the harness's row types 1, 3 have two fields,
+\* type 2 three) - AFTER the array has been popped: the exception point of the loop.
+\* ---------------------------------------------------------------------------------
+SLNFields(dt) == IF dt = 2 THEN 3 ELSE 2
+SLMInit(arrs) == [lst |-> arrs, out |-> <<>>, first |-> arrs[1].dt, st |-> "run"]
+SLMStep(m) ==
+    LET d == Head(m.lst) IN
+    IF SLNFields(d.dt) # SLNFields(m.first) THEN [m EXCEPT !.lst = Tail(@), !.st = "raised"]
+    ELSE [m EXCEPT !.lst = Tail(@), !.out = @ \o (IF d.dt = m.first THEN d.rows ELSE [i \in DOMAIN d.rows |-> -1])]
+RECURSIVE SLMRun(_)
+SLMRun(m) == IF m.st # "run" \/ m.lst = <<>> THEN m ELSE SLMRun(SLMStep(m))
+SLMObs(c, m) == [err |-> IF m.st = "raised" THEN "TypeError" ELSE "none", dt |-> m.first, rows |-> m.out,
+                 rec |-> c.arrs[1].rec, listlen |-> Len(m.lst), frame |-> TRUE]
+SLMApplies(c) == c.fn = "combine" /\ ~c.keep /\ c.form = "list" /\ Len(c.arrs) >= 2
+\* does the real call agree with the mechanism about raising and about what is left in the caller's list?
+SLMDisagrees(c, o) ==
+    IF ~SLMApplies(c) THEN {}
+    ELSE LET m == SLMRun(SLMInit(c.arrs)) IN
+         (IF (o.err = "none") = (m.st = "run") THEN {} ELSE {"mechanism_raises"}) \cup
+         (IF o.listlen = Len(m.lst) THEN {} ELSE {"mechanism_list_left"})
+
+\* ---------------------------------------------------------------------------------
 \* D1 / D2   dict2array, dictlist2array
 \*   c = [fn, dicts : Seq(Seq([k : STRING, t : "i"|"f"|"s", v : Int, l : Int])), sort, haskeys : BOOLEAN, keys : Seq(STRING)]
-\*   o = [err, n : Int, fields : Seq([name, kind : "i8"|"f8"|"S"|..., len : Int, vals : Seq(Int)])]
+\*   o = [err, n : Int, fields : Seq([name, kind : "i"|"f"|"S"|... (base type), len : Int (strings), vals : Seq(Int)])]
 \* ---------------------------------------------------------------------------------
 SLDKeys(d) == {d[i].k : i \in DOMAIN d}
 SLDItem(d, k) == d[CHOOSE i \in DOMAIN d : d[i].k = k]
@@ -268,7 +293,7 @@ SLDictOrderFixed(c) == c.haskeys \/ c.sort
 SLDictMissing(c) == c.haskeys /\ \E i \in DOMAIN c.keys : c.keys[i] \notin SLDKeys(c.dicts[1])
 SLDictField(c, name) ==
     LET it == SLDItem(c.dicts[1], name) IN
-    [name |-> name, kind |-> CASE it.t = "i" -> "i8" [] it.t = "f" -> "f8" [] it.t = "s" -> "S",
+    [name |-> name, kind |-> CASE it.t = "i" -> "i" [] it.t = "f" -> "f" [] it.t = "s" -> "S",      \* base type (the width is not documented)
      len |-> IF it.t = "s" THEN VSetMax({SLDItem(c.dicts[i], name).l : i \in DOMAIN c.dicts}) ELSE 0,
      vals |-> [i \in DOMAIN c.dicts |-> SLDItem(c.dicts[i], name).v]]
 SLDictFieldsFailing(c, names, o) ==
